@@ -41,6 +41,13 @@ def _ws_pattern(lit):
 
 
 def apply_replace(text, count, old, new, log, where):
+    if isinstance(old, tuple):
+        pat = re.compile(old[1])
+        found = list(pat.finditer(text))
+        if (count == '*' and not found) or (count != '*' and len(found) != int(count)):
+            raise AnchorLost('%s: regex rule expected %s match(es) of %r, found %d' % (where, count, old[1], len(found)))
+        log.append({'where': where, 'old': 'regex ' + old[1], 'new': new, 'count': len(found)})
+        return pat.sub(new, text)
     pat = re.compile(_ws_pattern(old))
     found = pat.findall(text)
     if len(found) != count:
@@ -181,6 +188,12 @@ def generate(template_path, repo):
                 elif t.startswith('//@loop'):
                     mode = ('loop', int(t.split()[1]))
                     loops[mode[1]] = []
+                elif t.startswith('//@replace_re'):
+                    # regex rewrite (python syntax, \\1 back-references); count may be `*` (one or more)
+                    m = re.match(r'//@replace_re\s+(\d+|\*)\s*::\s*(.*?)\s*==>\s*(.*)$', t)
+                    if not m:
+                        raise AnchorLost('bad replace_re directive: ' + t)
+                    replaces.append((m.group(1), ('re', m.group(2)), m.group(3), []))
                 elif t.startswith('//@replace_alt'):
                     # alternative source form for the PREVIOUS replace rule (tried when that one does not match)
                     m = re.match(r'//@replace_alt\s+(\d+)\s*::\s*(.*?)\s*==>\s*(.*)$', t)
